@@ -10,6 +10,7 @@ import subprocess
 import sys
 import time
 
+import numpy as np
 import z3
 
 from corpus import programs as CP
@@ -158,7 +159,7 @@ def crosshair_task(tier, seed):
 # ------------------------------------------------------------------------------------------- grid clause
 
 
-def grid_task(grid_keys, tier, seed, single=None):
+def grid_task(grid_keys, tier, seed, single=None, container="list"):
     """GridSearchCV replaced by its contract: picks an ARBITRARY point of param_grid (forked index per key),
     set_params(**point) on a clone, exposes it as best_estimator_."""
     part = Part()
@@ -214,7 +215,13 @@ def grid_task(grid_keys, tier, seed, single=None):
             with quiet():
                 space = dict(base_space)
                 for k_ in grid_keys:
-                    space[k_] = list(space_all[k_])
+                    # candidates may be given in any sequence form scikit-learn's ParameterGrid accepts
+                    if container == "ndarray" and all(isinstance(v_, float) for v_ in space_all[k_]):
+                        space[k_] = np.array(space_all[k_])
+                    elif container in ("tuple", "ndarray"):
+                        space[k_] = tuple(space_all[k_])
+                    else:
+                        space[k_] = list(space_all[k_])
                 dm = sm.DesignManager(name="d")
                 s1 = dm.symbolic_model(model=p.ui_model())
                 data = [[0.1 * i, 0.2 * i] for i in range(6)]
@@ -226,16 +233,16 @@ def grid_task(grid_keys, tier, seed, single=None):
 
     leaves = explore(harness, config={"prune": False})
     part.leaves(leaves)
-    key_base = "grid/" + "+".join(grid_keys or ["defaults-only"]) + ("/single:" + ",".join(f"{k_}={v_}" for k_, v_ in single.items()) if single else "")
+    key_base = "grid/" + "+".join(grid_keys or ["defaults-only"]) + ("/single:" + ",".join(f"{k_}={v_}" for k_, v_ in single.items()) if single else "") + ("" if container == "list" else f"/candidates-as-{container}")
     defaults = python.Config()
     points = set()
     for l in leaves:
         if l.status != "ok":
-            path = write_replay(PID, {"key": f"{key_base}/raises", "info": {"kind": "grid", "grid_keys": list(grid_keys), "decisions": l.decisions}, "inputs": {}, "exception": repr(l.value)[:300]})
+            path = write_replay(PID, {"key": f"{key_base}/raises", "info": {"kind": "grid", "grid_keys": list(grid_keys), "decisions": l.decisions, "single": single, "container": container}, "inputs": {}, "exception": repr(l.value)[:300]})
             part.violation(f"{key_base}/raises", f"fit_model/export raises {type(l.value).__name__}: {str(l.value)[:160]} for a grid over {grid_keys}", path)
             continue
         point, cfg, hist = l.value
-        points.add(tuple(sorted((k_, repr(v)) for k_, v in point.items() if k_ in space_all)))
+        points.add(tuple(sorted((k_, repr(np.asarray(v).tolist()) if not isinstance(v, (bool, type(None))) else repr(v)) for k_, v in point.items() if k_ in space_all)))
         ok = True
         why = []
         for k_ in space_all:
@@ -246,16 +253,24 @@ def grid_task(grid_keys, tier, seed, single=None):
             else:
                 want = getattr(defaults, k_)
             got = getattr(cfg, k_)
-            if got != want or type(got) is not type(want) and not (isinstance(got, (int, float)) and isinstance(want, (int, float))):
+
+            def scalar(v):
+                return v is None or isinstance(v, (bool, int, float, np.floating, np.integer, np.bool_))
+
+            if not scalar(got):
+                ok = False
+                why.append(f"{k_}: exported {got!r} is not a single hyper-parameter value (selected {want!r})")
+                continue
+            if not scalar(want) or got != want or type(got) is not type(want) and not (isinstance(got, (int, float)) and isinstance(want, (int, float))):
                 ok = False
                 why.append(f"{k_}: exported {got!r}, selected {want!r}")
-            if k_ in grid_keys and point[k_] not in space_all[k_]:
+            if k_ in grid_keys and not (scalar(point[k_]) and any(point[k_] == v_ and (point[k_] is None) == (v_ is None) for v_ in space_all[k_])):
                 ok = False
                 why.append(f"{k_}: {point[k_]!r} is not in the supplied grid")
         ok_hist = [h.name for h in hist] == ["Start", "Symbolic_Model", "Fit_Model"]
         part.record(Q("unsat" if (ok and ok_hist) else "sat", None, 0.0, ""), f"{key_base}: selected point {dict((k_, point[k_]) for k_ in grid_keys)} -> exported filter carries exactly these hyper-parameters (defaults elsewhere); history Start>Symbolic_Model>Fit_Model")
         if not ok or not ok_hist:
-            path = write_replay(PID, {"key": f"{key_base}/export", "info": {"kind": "grid", "grid_keys": list(grid_keys), "decisions": l.decisions}, "inputs": {}, "why": why, "history": [h.name for h in hist]})
+            path = write_replay(PID, {"key": f"{key_base}/export", "info": {"kind": "grid", "grid_keys": list(grid_keys), "decisions": l.decisions, "single": single, "container": container}, "inputs": {}, "why": why, "history": [h.name for h in hist]})
             part.violation(f"{key_base}/export", f"exported filter does not carry the selected hyper-parameters: {why or hist}", path)
     want_points = 1
     for k_ in grid_keys:
@@ -276,6 +291,7 @@ def run(tier, seed):
     # single-valued grids (one of them: filtering explicitly disabled)
     tasks.append((grid_task, (("innovation_filtering", "max_dt_sec"), tier, seed, {"innovation_filtering": [None], "max_dt_sec": [0.25]})))
     tasks.append((grid_task, (("innovation_filtering", "common_subexpression_elimination"), tier, seed, {"innovation_filtering": [0.0], "common_subexpression_elimination": [False]})))
+    tasks.append((grid_task, (("max_dt_sec", "common_subexpression_elimination"), tier, seed, None, "ndarray")))
     if tier != "quick":
         tasks.append((grid_task, (("innovation_filtering", "max_dt_sec", "common_subexpression_elimination"), tier, seed)))
         tasks.append((grid_task, (("max_dt_sec",), tier, seed)))
@@ -313,6 +329,6 @@ def replay(path):
             return 1
         print("not reproduced")
         return 0
-    d = grid_task(tuple(info["grid_keys"]), "quick", 0)
+    d = grid_task(tuple(info["grid_keys"]), "quick", 0, info.get("single"), info.get("container", "list"))
     print(d["violations"])
     return 1 if d["violations"] else 0
